@@ -38,7 +38,17 @@ func verifOnLock() {
 	w.fill("@")
 	verifAssume(len(w.gb.scRefs) <= int(w.gb.cfg.ChannelPool.MaxSize))
 	verifAssume(w.cc.published)
+	verifGrowHooked = true
+	for j := 0; j < vR; j++ {
+		verifGrowStreams[j] = w.refs[j].streamsCnt
+	}
 }
+
+// state at the interference point: what the other goroutines left behind
+var (
+	verifGrowHooked  bool
+	verifGrowStreams [vR]int32
+)
 
 // verifLock replaces X.mu.Lock() in native replays (rewrite in replay.go): the interference runs
 // inline at exactly the lock acquisition the executor interfered at.
@@ -80,9 +90,27 @@ func VerifH_grow() {
 	ctx := &verifCtx{}
 	verifResetLocks()
 	verifGrowArmed = true
-	w.pk.Pick(balancer.PickInfo{FullMethodName: "/plain", Ctx: ctx})
+	verifGrowHooked = false
+	res, perr := w.pk.Pick(balancer.PickInfo{FullMethodName: "/plain", Ctx: ctx})
 	verifGrowArmed = false
 	verifReach("after")
 	verifAssert(len(gb.scRefs) <= int(cp.MaxSize), "C03: pool above maxSize")
+	if perr == nil && verifGrowHooked {
+		// The call was placed although the pick gave other goroutines room in between (it released a
+		// lock it had held and took it again): the channel must be least loaded with respect to what
+		// they left behind, i.e. choosing the channel and charging the stream to it must be atomic
+		// with respect to other picks on this picker.
+		min := int32(1 << 30)
+		for j := 0; j < vR; j++ {
+			if verifInPicker(w.pk, w.refs[j]) && verifGrowStreams[j] < min {
+				min = verifGrowStreams[j]
+			}
+		}
+		for j := 0; j < vR; j++ {
+			if w.refs[j].subConn == res.SubConn && verifInPicker(w.pk, w.refs[j]) {
+				verifAssert(verifGrowStreams[j] == min, "C02: call charged to a channel chosen before other calls were charged (choosing the least-loaded channel and charging the stream are not atomic)")
+			}
+		}
+	}
 	verifObserve("poolSize", uint64(len(gb.scRefs)))
 }
